@@ -17,7 +17,10 @@ CFG = dict(
     technique="Lean 4 proof (∀-state step lemma; generic induction over prepares/commits; mechanism lemma; evaluated multi-node witness) + real multi-node continuation check",
     lean=["Ssv.Props.C07", "Ssv.Props.C07Wedge"],
     engines=[dict(harness="qbft", driver="m_qbft", args=["-mode", "c07"], case_delim="reset",
-                  n_quick=14000, n_thorough=200000, thorough_seeds=4, n_search=60000, search_seeds=3)],
+                  n_quick=14000, n_thorough=200000, thorough_seeds=4, n_search=60000, search_seeds=3),
+             # validator-level glue liveness (implementation-side oracle only, no model driver): n real validator.Validator objects wired by
+             # operator/validator.SetupRunners, real queues + queue consumers, real RoundTimer (scaled), in-process timely network; see notes/C07_vglue.md
+             dict(harness="vglue", driver=None, case_delim="case", n_quick=6, n_thorough=48, thorough_seeds=2, n_search=12, search_seeds=1)],
     rule="adversarial prefixes as for C01 (n=4,7; ≤ f Byzantine; drops, duplicates, reorderings, timeouts, compaction on/off, own-network faults; operators running ahead on their own "
          "timers and pulling others by f+1 announcements, lost round-change announcements; real rotating leader), then the Byzantine operators go silent and the constructed "
          "continuation runs on the real controllers: everything ever sent is delivered (the leader of a round receives its round-changes with the highest prepared one on the "
@@ -27,7 +30,7 @@ CFG = dict(
          "timeout-without-progress (every round up to the cut-off: round+1, accepted proposal cleared, timer re-armed, exactly one round-change carrying the lock), "
          "undecided-operator-without-live-round-timer, not-pulled-by-f+1-round-changes, correct-leaders-proposal-refused (a correct round-robin leader's proposal must be "
          "accepted by every correct undecided operator in a round ≤ its round). 10 directed scenarios first (incl. 14 timeouts up to the cut-off for n=4,7; pulled-then-own-timer; "
-         "laggard that timed out once; future-round proposal reaching a laggard first); every correct operator's trace is diffed against the Lean model",
+         "laggard that timed out once; future-round proposal reaching a laggard first); every correct operator's trace is diffed against the Lean model PRODUCTION-CONFIG share: in 25–35 % of the cases (and directed ones) the node objects are the ones a real node builds — operator/validator.SetupRunners(validator.Options{…, non-nil MessageValidator}) → attester runner → QBFTController, with the production ProposerF closure, SignatureVerification flag, ssv-spec AttesterValueCheckF, default domain (injected by SetDefaultDomain) and identifier; only Timer / Network / Storage are swapped for the recorders (harness/cmd/qbft/prodcfg.go; consensus values are valid attester ConsensusData).",
     trusted_base=["harness abstraction + scheduler + continuation (harness/cmd/qbft/simsearch.go, directed.go)", "BLS / SHA-256 abstracted"],
     assumptions=["timely delivery among correct operators after the chosen point; every message a correct operator ever sent is eventually delivered (drops = delays)"],
     explanation="KNOWN-FINDING lines: (1) wedge by mixed locks (spec-aligned justification predicate), (2) laggards with the runner's compaction (consequence of the C06 finding), (3) a lone laggard behind operators that decided through a received certificate (they neither time out nor re-broadcast it).",
